@@ -97,8 +97,9 @@ Section Spelling.
 
   Lemma mparse_lit f l rest : mparse (S f) (Lit l :: rest) = MOk (MLiteral l, rest).
   Proof. reflexivity. Qed.
-  Lemma mparse_neg f l rest : mparse (S f) (Punct 45 Alone :: Lit l :: rest) = MOk (MNegated l, rest).
-  Proof. reflexivity. Qed.
+  Lemma mparse_neg f l rest : is_numeric_lit l = true ->
+    mparse (S f) (Punct 45 Alone :: Lit l :: rest) = MOk (MNegated l, rest).
+  Proof. intros H. destruct l as [n|fl|raw cooked|c|b]; try discriminate; try reflexivity. cbn in H. subst b. reflexivity. Qed.
   Lemma mparse_ident f s rest : mparse (S f) (Ident s :: rest) = MOk (MSymbol s, rest).
   Proof. reflexivity. Qed.
   Lemma mparse_hash_str f s sp raw rest : mparse (S f) (Punct 35 sp :: Lit (LStr raw s) :: rest) = MOk (MSymbol raw, rest).
@@ -124,9 +125,9 @@ Section Spelling.
     - destruct b; [rewrite mparse_hash_t|rewrite mparse_hash_f]; eexists; repeat split; cbn; auto.
     - destruct n as [u|i|fl]; cbn [spell_number app].
       + rewrite mparse_lit. eexists. repeat split; cbn; auto.
-      + rewrite mparse_neg. eexists. split; [reflexivity|]. split; [|cbn; auto]. cbn [meval value_of_neg_lit]. unfold num_from_signed.
+      + rewrite mparse_neg by reflexivity. eexists. split; [reflexivity|]. split; [|cbn; auto]. cbn [meval value_of_neg_lit]. unfold num_from_signed.
         rewrite Z2N.id by lia. replace (- - i)%Z with i by lia. destruct (0 <=? i)%Z eqn:E; [lia|reflexivity].
-      + destruct (float_sign fl) eqn:Es; cbn [app]; [rewrite mparse_neg|rewrite mparse_lit]; eexists; (split; [reflexivity|]); (split; [|cbn; auto]);
+      + destruct (float_sign fl) eqn:Es; cbn [app]; [rewrite mparse_neg by reflexivity|rewrite mparse_lit]; eexists; (split; [reflexivity|]); (split; [|cbn; auto]);
           cbn [meval value_of_neg_lit value_of_lit]; [now rewrite SFopp_invol|reflexivity].
     - rewrite mparse_lit. eexists. repeat split; cbn; auto.
     - rewrite mparse_lit. eexists. repeat split; cbn; auto.
